@@ -137,6 +137,100 @@ def _remove_elements_semantics(ctx: Ctx, model, rm) -> bool:
     return True
 
 
+def _validate_impedances_semantics(ctx: Ctx, vi) -> Optional[List[str]]:
+    """_validate_impedances interpreted (sa.miniinterp) on stand-ins: the class is a recorder whose instance hands out a
+    tagged response and a tagged expression; `allclose` answers from the scenario (real parts close or not, imaginary parts
+    close or not: four scenarios).  Demanded: the instance is built at its default values, the expression is the
+    substituted one, it is evaluated at the frequencies the response was asked for, each comparison pairs the same part of
+    the two sides, and the call raises exactly when a part differs.  Returns the problems, or None when the function is
+    outside the interpreter's subset (the caller then reads its shape)."""
+    from ..miniinterp import InterpRaise, Mini, module_globals
+    problems: List[str] = []
+
+    class Part:
+        def __init__(self, side, part):
+            self.side, self.part = side, part
+
+    class Arr:
+        def __init__(self, side, items=None):
+            self.side, self.items = side, items
+            self.real, self.imag = Part(side, "real"), Part(side, "imag")
+
+        def __iter__(self):
+            return iter(self.items)
+
+        def __len__(self):
+            return len(self.items)
+
+    for real_close in (True, False):
+        for imag_close in (True, False):
+            log = {"ctor": [], "substitute": [], "f": None, "compared": []}
+
+            class Expr_:
+                def subs(self, name, value=None):
+                    if isinstance(name, dict):
+                        (name, value), = name.items()
+                    if str(name) != "f":
+                        problems.append(f"the expression is evaluated by substituting {name!r}, not the frequency")
+                    return complex(float(value), 1.0)
+
+            class El_:
+                def to_sympy(self, substitute=False):
+                    log["substitute"].append(substitute)
+                    return Expr_()
+
+                def get_impedances(self, f):
+                    log["f"] = list(f.items) if isinstance(f, Arr) else list(f)
+                    return Arr("func")
+
+            def Class(*a, **k):
+                log["ctor"].append((a, k))
+                return El_()
+
+            def array(x, dtype=None):
+                items = list(x.items) if isinstance(x, Arr) else list(x)
+                if items and all(isinstance(v, complex) for v in items):
+                    side = "sympy" if log["f"] is not None and items == [complex(float(v), 1.0) for v in log["f"]] else "other"
+                    if side == "other" and log["f"] is None:
+                        side = ("sympy-pending", items)
+                    return Arr(side, items)
+                return Arr("freq", items)
+
+            def allclose(a, b, *rest, **kw):
+                for x in (a, b):
+                    if isinstance(x, Part) and isinstance(x.side, tuple):  # expression evaluated before the response was asked for
+                        x.side = "sympy" if log["f"] is not None and x.side[1] == [complex(float(v), 1.0) for v in log["f"]] else "other"
+                if not (isinstance(a, Part) and isinstance(b, Part)) or {a.side, b.side} != {"func", "sympy"} or a.part != b.part:
+                    d = lambda x: f"{x.side}.{x.part}" if isinstance(x, Part) else type(x).__name__
+                    problems.append(f"a comparison pairs {d(a)} with {d(b)}")
+                    return True
+                log["compared"].append(a.part)
+                return real_close if a.part == "real" else imag_close
+
+            st = {"array": array, "allclose": allclose, "Frequency": float, "ComplexImpedance": complex}
+            g = module_globals(ctx.repo.modules[REG].tree, st)
+            g.update(st)
+            try:
+                Mini(g, max_steps=100000).call_function(vi.node, {vi.node.args.args[0].arg: Class})
+                raised = None
+            except InterpRaise as e:
+                raised = e.kind
+            except AnalysisError:
+                return None
+            sc = f"real parts {'equal' if real_close else 'differ'}, imaginary parts {'equal' if imag_close else 'differ'}"
+            if log["ctor"] != [((), {})]:
+                problems.append("the element is not built once at its default values (Class())")
+            if log["substitute"] != [True]:
+                problems.append("the expression is not to_sympy(substitute=True)")
+            if raised is None and not (real_close and imag_close):
+                problems.append(f"{sc}: no refusal")
+            if raised is not None and real_close and imag_close:
+                problems.append(f"{sc}: raises {raised}")
+            if raised is None and set(log["compared"]) != {"real", "imag"}:
+                problems.append(f"{sc}: only {sorted(set(log['compared']))} compared")
+    return problems
+
+
 def check(ctx: Ctx) -> None:
     model = get_model(ctx.repo)
     ctx.modules_consulted.update({REG, TOK, PARSER, "pyimpspec.circuit.elements", "pyimpspec.circuit.base"})
@@ -352,7 +446,15 @@ def check(ctx: Ctx) -> None:
         isinstance(parent(c), ast.UnaryOp) and isinstance(parent(c).op, ast.Not) for c in cmp_) and len(raises) >= 2
     uses_defaults = any(isinstance(c.func, ast.Name) and c.func.id == "Class" and not c.args and not c.keywords for c in calls_in(vi.node))
     uses_sympy = "to_sympy(substitute=True)" in norm(vi.node) and "get_impedances(f)" in norm(vi.node)
-    if both and uses_defaults and uses_sympy:
+    sem = _validate_impedances_semantics(ctx, vi)
+    if sem is not None:
+        # decided by interpretation on 4 scenarios (real / imaginary parts equal or not)
+        if sem:
+            ctx.violation("R15.3", "_validate_impedances:comparison", REG, vi.node,
+                          "_validate_impedances must compare get_impedances with the substituted equation (real and imaginary parts) at default values and raise on mismatch: " + sem[0] + (f" (+{len(sem) - 1} more)" if len(sem) > 1 else ""))
+        else:
+            ctx.ok()
+    elif both and uses_defaults and uses_sympy:
         ctx.ok()
     else:
         ctx.violation("R15.3", "_validate_impedances:comparison", REG, vi.node,
